@@ -153,6 +153,11 @@ def od_systems(tier):
                        "reactions": [R([("A", 1)], [("B", 1)], 0.5, 0.25)], "envs": [""],
                        "space": {"type": "grid", "w": 2, "h": 1, "d": 1, "vol": 1.0}, "chemostats": [1, 0, 0, 1]},
               "init": [[2, 1, 0, 1]]})
+    s.append({"name": "periodic 3x2x1 grid, chemostated cells next to a wrap-around interface",
+              "spec": {"species": [{"label": "A", "D": 1.0}], "reactions": [], "envs": [""],
+                       "space": {"type": "grid", "w": 3, "h": 2, "d": 1, "vol": 1.0, "bc": {"x": "periodical"}},
+                       "chemostats": [0, 0, 1, 1, 0, 0]},
+              "init": [[0, 0, 2, 1, 0, 0], [1, 0, 1, 1, 0, 1]]})
     s.append({"name": "self-neighbour (periodic axis of length 1), A->A+B, dead end",
               "spec": {"species": [{"label": "A", "D": 1.0}, {"label": "B", "D": 0.0}],
                        "reactions": [R([("A", 1)], [("A", 1), ("B", 1)], 0.5), R([("B", 2)], [], 0.3)], "envs": [""],
